@@ -1377,6 +1377,11 @@ def _encode_job(cfg):
     else:
         pe.atom_ranges = {"sbyte": (0, 255)}
     r = pe.call("encode::encode", [("ref", ("const", ("symvec", n))), mk_enum(ECL, l), mk_enum(MODE, mode), mk_enum(VERSION, "V%02d" % v)])
+    if r.kind == "top":
+        # control flow that depends on payload values (e.g. a width chosen from a group's value): the symbolic evaluation stops;
+        # fall back to concrete payloads that exhaust the values of the last group and vary the first
+        c = _encode_concrete(cfg)
+        return (cfg, r.kind, r.why) if c is None else c
     if r.kind != "ret":
         return cfg, r.kind, r.why
     cq = r.value
@@ -1397,6 +1402,81 @@ def _encode_job(cfg):
                 if len(problems) >= 3:
                     return cfg, "ret", problems
     return cfg, "ret", problems
+
+
+def _concrete_payloads(mode, n):
+    """payloads of length n in the mode's alphabet: extremes, a ramp, every value of the last group, a spread of first groups"""
+    if mode == "Numeric":
+        alpha, grp = [ord(c) for c in "0123456789"], 3
+    elif mode == "Alphanumeric":
+        alpha, grp = [ord(c) for c in ref.ALNUM], 2
+    else:
+        alpha, grp = list(range(256)), 1
+    if n == 0:
+        return [[]]
+    ramp = [alpha[(3 * i + 1) % len(alpha)] for i in range(n)]
+    out = [[alpha[0]] * n, [alpha[-1]] * n, ramp]
+    tail = n % grp or grp
+    tail = min(tail, n)
+    import itertools
+    limit = 120 if n <= 64 else 12
+    combos = list(itertools.product(alpha, repeat=tail))
+    step = max(1, len(combos) // limit)
+    for cmb in combos[::step]:
+        out.append(ramp[:n - tail] + list(cmb))
+    for a in alpha[::max(1, len(alpha) // 10)]:
+        out.append([a] + ramp[1:])
+    seen, uniq = set(), []
+    for p_ in out:
+        if tuple(p_) not in seen:
+            seen.add(tuple(p_))
+            uniq.append(p_)
+    return uniq
+
+
+def _encode_concrete(cfg):
+    mode, v, l, n = cfg
+    f = _G["facts"]
+    exp = _expected_stream(mode, v, l, n)
+    if exp is None:
+        return None
+    nb = ref.data_codewords(v, l)
+
+    def value(key, payload):
+        def atom(a):
+            b = payload[a[1]]
+            return b if a[0] == "sbyte" else ref.ALNUM.index(chr(b))
+        if key[0] == "atom":
+            return atom(key[1])
+        return key[1] + sum(c * atom(a) for a, c in key[2])
+    n_done = 0
+    for payload in _concrete_payloads(mode, n):
+        pe = peval.PEval(f, max_steps=20_000_000)
+        arr = ("array", tuple(fold.mk_int("u8", b) for b in payload))
+        r = pe.call("encode::encode", [("ref", ("const", arr)), mk_enum(ECL, l), mk_enum(MODE, mode), mk_enum(VERSION, "V%02d" % v)])
+        shown = bytes(payload[-6:]).decode("latin-1")
+        if r.kind == "diverge":
+            return cfg, "diverge", "%s (payload ending %r)" % (r.why, shown)
+        if r.kind != "ret":
+            return None
+        cq = r.value
+        if cq == TOP or cq[0] != "adt" or len(cq[4]) < 2 or cq[4][1] == TOP or cq[4][1][0] != "harr":
+            return None
+        h = cq[4][1]
+        if pe.heap.length(h) < nb:
+            return cfg, "ret", [("length", nb, pe.heap.length(h))]
+        for i in range(nb):
+            cell = pe.heap.get(h, i)
+            if cell == TOP or cell[0] != "int":
+                return None
+            for k in range(8):
+                pos = i * 8 + (7 - k)
+                e = exp[pos]
+                want = e if e in (0, 1) else (value(e[1], payload) >> e[2]) & 1
+                if (cell[2] >> k) & 1 != want:
+                    return cfg, "ret", [("bit %d (codeword %d) for a payload ending %r" % (pos, i, shown), e, (cell[2] >> k) & 1)]
+        n_done += 1
+    return cfg, "ret", []
 
 
 def _encode_configs(tier):
@@ -1429,7 +1509,9 @@ def _encode_configs(tier):
 
 def c06_r2(ctx, f, rid="C06.R2"):
     ctx.rule(rid, "segment encoders by partial evaluation with symbolic payload bytes: the data codewords are the ISO 7.4 bit stream "
-                  "(mode indicator, count, digit triples/pairs/bytes as value expressions, terminator, bit padding, pad codewords)")
+                  "(mode indicator, count, digit triples/pairs/bytes as value expressions, terminator, bit padding, pad codewords); "
+                  "where control flow depends on payload values the evaluation falls back to concrete payloads that exhaust the last "
+                  "group's values")
     fn = anchor_fn(ctx, rid, f, "encode::encode", ["&[u8]", ECL, MODE, VERSION], CQ)
     if not fn:
         return None
